@@ -131,3 +131,363 @@ package sqlite3
 //@   at call QueryContext#1: assert binds-low-high-high: len(callarg2) == 3 && cast(callarg2[0], "int64") == int64(low) && cast(callarg2[1], "int64") == int64(high) && cast(callarg2[2], "int64") == int64(high)
 //@   at call QueryContext#1: ghost queried := true
 //@   ensures local-success-means-the-range-was-queried: err == nil ==> queried
+
+// ---- C23: crash atomicity by construction. SQLite (WAL journal, synchronous=NORMAL, immediate write
+// transactions: all assumed, the DSN that asks for them is asserted in openSQLite) makes a committed transaction
+// durable and an uncommitted one invisible after a crash. What is proved here is that the Go code uses it that way:
+//   withWriteTx: the body runs inside one write transaction of the given connection; nil is returned only when
+//     Commit returned nil; a failing body is rolled back and its error returned; a Commit error is returned;
+//   every mutator: exactly one withWriteTx on the writer connection, no statement executed outside it, success
+//     reported only when that transaction committed;
+//   every transaction body: the data statement and the key-tracker update run on the transaction they were given,
+//     tracker after data, and any failure fails the body (hence rolls back both).
+//@ func withWriteTx(ctx context.Context, db *sql.DB, fn func(tx *sql.Tx) error) (err error)
+//@   safety off
+//@   opt frame=off
+//@   ghost began int = 0
+//@   ghost tx0 *sql.Tx = nil
+//@   ghost berr error = nil
+//@   ghost ran int = 0
+//@   ghost ferr error = nil
+//@   ghost commits int = 0
+//@   ghost cerr error = nil
+//@   ghost rollbacks int = 0
+//@   at call BeginTx#*: assert one-write-transaction-on-the-given-connection: callarg0 == db && callarg2 == nil && began == 0
+//@   at after call BeginTx#*: ghost tx0 := callresult0
+//@   at after call BeginTx#*: ghost berr := callresult1
+//@   at after call BeginTx#*: ghost began := began + 1
+//@   at call dyn#*: assert the-body-runs-once-inside-the-open-transaction: callarg0 == tx0 && began == 1 && berr == nil && ran == 0 && commits == 0 && rollbacks == 0
+//@   at after call dyn#*: ghost ferr := callresult
+//@   at after call dyn#*: ghost ran := ran + 1
+//@   at call Commit#*: assert commit-only-after-a-successful-body: callarg0 == tx0 && ran == 1 && ferr == nil && rollbacks == 0 && commits == 0
+//@   at after call Commit#*: ghost cerr := callresult
+//@   at after call Commit#*: ghost commits := commits + 1
+//@   at call Rollback#*: assert rollback-only-after-a-failed-body: callarg0 == tx0 && ran == 1 && ferr != nil && commits == 0
+//@   at call Rollback#*: ghost rollbacks := rollbacks + 1
+//@   ensures local-success-is-reported-only-when-the-commit-succeeded: err == nil ==> (began == 1 && berr == nil && ran == 1 && ferr == nil && commits == 1 && cerr == nil && rollbacks == 0)
+//@   ensures local-a-failed-body-is-rolled-back-and-its-error-returned: (ran == 1 && ferr != nil) ==> (err == ferr && rollbacks == 1 && commits == 0)
+//@   ensures local-a-failed-begin-runs-nothing: berr != nil ==> (err == berr && ran == 0 && commits == 0)
+//@   ensures local-a-failed-commit-is-reported: commits == 1 ==> err == cerr
+
+//@ func openSQLite(logger *zap.Logger, dbPath string) (db *sql.DB, err error)
+//@   safety off
+//@   opt frame=off
+//@   ghost fmtStr string = ""
+//@   ghost dsn string = ""
+//@   ghost opened int = 0
+//@   at call Sprintf#*: ghost fmtStr := callarg0
+//@   at after call Sprintf#*: ghost dsn := callresult
+//@   at call Open#*: assert the-connection-string-asks-for-wal-normal-sync-and-immediate-write-transactions: callarg0 == "sqlite3" && callarg1 == dsn && contains(fmtStr, "_pragma=journal_mode(WAL)") && contains(fmtStr, "_pragma=synchronous(1)") && contains(fmtStr, "_txlock=immediate") && contains(fmtStr, "_pragma=busy_timeout(")
+//@   at call Open#*: ghost opened := opened + 1
+//@   ensures local-one-open: opened == 1
+
+//@ func (s *SqliteKV) Put(ctx context.Context, key []byte, value []byte) (err error)
+//@   safety off
+//@   opt frame=off
+//@   ghost txs int = 0
+//@   ghost werr error = nil
+//@   at call withWriteTx#*: assert one-write-transaction-on-the-writer-connection: callarg1 == s.writer && txs == 0
+//@   at after call withWriteTx#*: ghost werr := callresult
+//@   at after call withWriteTx#*: ghost txs := txs + 1
+//@   at call Exec#?: assert no-statement-changes-the-store-outside-the-transaction: false
+//@   at call ExecContext#?: assert no-statement-changes-the-store-outside-the-transaction: false
+//@   ensures local-acknowledged-exactly-when-the-transaction-committed: txs == 1 && err == werr
+
+//@ func (s *SqliteKV) Put$1(tx *sql.Tx) (err error)
+//@   safety off
+//@   opt frame=off
+//@   requires the-transaction-and-the-captured-receiver-exist: tx != nil && s != nil
+//@   ghost onTx bool = true
+//@   ghost lastStmt *sql.Stmt = nil
+//@   ghost execs int = 0
+//@   ghost xerr error = nil
+//@   ghost tracked int = 0
+//@   ghost terr error = nil
+//@   at call StmtContext#*: ghost onTx := onTx && callarg0 == tx
+//@   at call StmtContext#*: ghost lastStmt := callarg2
+//@   at call Exec#*: assert the-data-statement-runs-once-on-this-transaction-before-the-tracker: onTx && lastStmt == s.stmts.simplePut && execs == 0 && tracked == 0
+//@   at after call Exec#*: ghost xerr := callresult1
+//@   at after call Exec#*: ghost execs := execs + 1
+//@   at call ExecContext#?: assert no-statement-bypasses-the-transaction: false
+//@   at call updateKeyTracker#*: assert tracker-updated-in-the-same-transaction-after-the-data-statement-succeeded: callarg2 == tx && execs == 1 && xerr == nil && tracked == 0 && callarg3 == key && callarg4 == SimpleFlag && callarg5 == 0
+//@   at after call updateKeyTracker#*: ghost terr := callresult
+//@   at after call updateKeyTracker#*: ghost tracked := tracked + 1
+//@   ensures local-success-means-data-and-tracker-were-both-written-in-this-transaction: err == nil ==> (execs == 1 && xerr == nil && tracked == 1 && terr == nil)
+//@   ensures local-a-failed-statement-fails-the-transaction: (execs == 1 && xerr != nil) ==> err == xerr
+//@   ensures local-a-failed-tracker-update-fails-the-transaction: tracked == 1 ==> err == terr
+
+//@ func (s *SqliteKV) Delete(ctx context.Context, key []byte) (err error)
+//@   safety off
+//@   opt frame=off
+//@   ghost txs int = 0
+//@   ghost werr error = nil
+//@   at call withWriteTx#*: assert one-write-transaction-on-the-writer-connection: callarg1 == s.writer && txs == 0
+//@   at after call withWriteTx#*: ghost werr := callresult
+//@   at after call withWriteTx#*: ghost txs := txs + 1
+//@   at call Exec#?: assert no-statement-changes-the-store-outside-the-transaction: false
+//@   at call ExecContext#?: assert no-statement-changes-the-store-outside-the-transaction: false
+//@   ensures local-acknowledged-exactly-when-the-transaction-committed: txs == 1 && err == werr
+
+//@ func (s *SqliteKV) Delete$1(tx *sql.Tx) (err error)
+//@   safety off
+//@   opt frame=off
+//@   requires the-transaction-and-the-captured-receiver-exist: tx != nil && s != nil
+//@   ghost onTx bool = true
+//@   ghost lastStmt *sql.Stmt = nil
+//@   ghost execs int = 0
+//@   ghost xerr error = nil
+//@   ghost tracked int = 0
+//@   ghost terr error = nil
+//@   at call StmtContext#*: ghost onTx := onTx && callarg0 == tx
+//@   at call StmtContext#*: ghost lastStmt := callarg2
+//@   at call Exec#*: assert the-data-statement-runs-once-on-this-transaction-before-the-tracker: onTx && lastStmt == s.stmts.simpleDel && execs == 0 && tracked == 0
+//@   at after call Exec#*: ghost xerr := callresult1
+//@   at after call Exec#*: ghost execs := execs + 1
+//@   at call ExecContext#?: assert no-statement-bypasses-the-transaction: false
+//@   at call updateKeyTracker#*: assert tracker-updated-in-the-same-transaction-after-the-data-statement-succeeded: callarg2 == tx && execs == 1 && xerr == nil && tracked == 0 && callarg3 == key && callarg4 == 0 && callarg5 == SimpleFlag
+//@   at after call updateKeyTracker#*: ghost terr := callresult
+//@   at after call updateKeyTracker#*: ghost tracked := tracked + 1
+//@   ensures local-success-means-data-and-tracker-were-both-written-in-this-transaction: err == nil ==> (execs == 1 && xerr == nil && tracked == 1 && terr == nil)
+//@   ensures local-a-failed-statement-fails-the-transaction: (execs == 1 && xerr != nil) ==> err == xerr
+//@   ensures local-a-failed-tracker-update-fails-the-transaction: tracked == 1 ==> err == terr
+
+//@ func (s *SqliteKV) PrefixAppend(ctx context.Context, prefix []byte, child []byte) (err error)
+//@   safety off
+//@   opt frame=off
+//@   ghost txs int = 0
+//@   ghost werr error = nil
+//@   at call withWriteTx#*: assert one-write-transaction-on-the-writer-connection: callarg1 == s.writer && txs == 0
+//@   at after call withWriteTx#*: ghost werr := callresult
+//@   at after call withWriteTx#*: ghost txs := txs + 1
+//@   at call Exec#?: assert no-statement-changes-the-store-outside-the-transaction: false
+//@   at call ExecContext#?: assert no-statement-changes-the-store-outside-the-transaction: false
+//@   ensures local-acknowledged-exactly-when-the-transaction-committed: txs == 1 && err == werr
+
+//@ func (s *SqliteKV) PrefixAppend$1(tx *sql.Tx) (err error)
+//@   safety off
+//@   opt frame=off
+//@   requires the-transaction-and-the-captured-receiver-exist: tx != nil && s != nil
+//@   ghost onTx bool = true
+//@   ghost lastStmt *sql.Stmt = nil
+//@   ghost execs int = 0
+//@   ghost xerr error = nil
+//@   ghost tracked int = 0
+//@   ghost terr error = nil
+//@   at call StmtContext#*: ghost onTx := onTx && callarg0 == tx
+//@   at call StmtContext#*: ghost lastStmt := callarg2
+//@   at call Exec#*: assert the-data-statement-runs-once-on-this-transaction-before-the-tracker: onTx && lastStmt == s.stmts.prefixAppend && execs == 0 && tracked == 0
+//@   at after call Exec#*: ghost xerr := callresult1
+//@   at after call Exec#*: ghost execs := execs + 1
+//@   at call ExecContext#?: assert no-statement-bypasses-the-transaction: false
+//@   at call updateKeyTracker#*: assert tracker-updated-in-the-same-transaction-after-the-data-statement-succeeded: callarg2 == tx && execs == 1 && xerr == nil && tracked == 0 && callarg3 == prefix && callarg4 == PrefixFlag && callarg5 == 0
+//@   at after call updateKeyTracker#*: ghost terr := callresult
+//@   at after call updateKeyTracker#*: ghost tracked := tracked + 1
+//@   ensures local-success-means-data-and-tracker-were-both-written-in-this-transaction: err == nil ==> (execs == 1 && xerr == nil && tracked == 1 && terr == nil)
+//@   ensures local-a-failed-statement-fails-the-transaction: (execs == 1 && xerr != nil) ==> err == xerr
+//@   ensures local-a-failed-tracker-update-fails-the-transaction: tracked == 1 ==> err == terr
+//@   ensures local-errors-come-from-the-statements-or-the-conflict-rule: err == nil || err == xerr || err == terr || err == chord.ErrKVPrefixConflict || tracked == 0
+
+//@ func (s *SqliteKV) PrefixRemove(ctx context.Context, prefix []byte, child []byte) (err error)
+//@   safety off
+//@   opt frame=off
+//@   ghost txs int = 0
+//@   ghost werr error = nil
+//@   at call withWriteTx#*: assert one-write-transaction-on-the-writer-connection: callarg1 == s.writer && txs == 0
+//@   at after call withWriteTx#*: ghost werr := callresult
+//@   at after call withWriteTx#*: ghost txs := txs + 1
+//@   at call Exec#?: assert no-statement-changes-the-store-outside-the-transaction: false
+//@   at call ExecContext#?: assert no-statement-changes-the-store-outside-the-transaction: false
+//@   ensures local-acknowledged-exactly-when-the-transaction-committed: txs == 1 && err == werr
+
+//@ func (s *SqliteKV) PrefixRemove$1(tx *sql.Tx) (err error)
+//@   safety off
+//@   opt frame=off
+//@   requires the-transaction-and-the-captured-receiver-exist: tx != nil && s != nil
+//@   ghost onTx bool = true
+//@   ghost lastStmt *sql.Stmt = nil
+//@   ghost execs int = 0
+//@   ghost xerr error = nil
+//@   ghost tracked int = 0
+//@   ghost terr error = nil
+//@   at call StmtContext#*: ghost onTx := onTx && callarg0 == tx
+//@   at call StmtContext#*: ghost lastStmt := callarg2
+//@   at call Exec#*: assert the-data-statement-runs-once-on-this-transaction-before-the-tracker: onTx && lastStmt == s.stmts.prefixRemove && execs == 0 && tracked == 0
+//@   at after call Exec#*: ghost xerr := callresult1
+//@   at after call Exec#*: ghost execs := execs + 1
+//@   at call ExecContext#?: assert no-statement-bypasses-the-transaction: false
+//@   at call updateKeyTracker#*: assert tracker-updated-in-the-same-transaction-after-the-data-statement-succeeded: callarg2 == tx && execs == 1 && xerr == nil && tracked == 0 && callarg3 == prefix && callarg4 == 0 && callarg5 == PrefixFlag
+//@   at after call updateKeyTracker#*: ghost terr := callresult
+//@   at after call updateKeyTracker#*: ghost tracked := tracked + 1
+//@   ensures local-success-means-data-and-tracker-were-both-written-in-this-transaction: err == nil ==> (execs == 1 && xerr == nil && tracked == 1 && terr == nil)
+//@   ensures local-a-failed-statement-fails-the-transaction: (execs == 1 && xerr != nil) ==> err == xerr
+//@   ensures local-a-failed-tracker-update-fails-the-transaction: tracked == 1 ==> err == terr
+
+//@ func (s *SqliteKV) Acquire(ctx context.Context, lease []byte, ttl time.Duration) (tok uint64, err error)
+//@   safety off
+//@   opt frame=off
+//@   ghost txs int = 0
+//@   ghost werr error = nil
+//@   at call withWriteTx#*: assert one-write-transaction-on-the-writer-connection: callarg1 == s.writer && txs == 0
+//@   at after call withWriteTx#*: ghost werr := callresult
+//@   at after call withWriteTx#*: ghost txs := txs + 1
+//@   at call Exec#?: assert no-statement-changes-the-store-outside-the-transaction: false
+//@   at call ExecContext#?: assert no-statement-changes-the-store-outside-the-transaction: false
+//@   ensures local-acknowledged-only-when-the-transaction-committed: err == nil ==> (txs == 1 && werr == nil)
+//@   ensures local-a-failed-transaction-is-reported: (txs == 1 && werr != nil) ==> err == werr
+
+//@ func (s *SqliteKV) Acquire$1(tx *sql.Tx) (err error)
+//@   safety off
+//@   opt frame=off
+//@   requires the-transaction-and-the-captured-receiver-exist: tx != nil && s != nil
+//@   ghost onTx bool = true
+//@   ghost lastStmt *sql.Stmt = nil
+//@   ghost execs int = 0
+//@   ghost xerr error = nil
+//@   ghost tracked int = 0
+//@   ghost terr error = nil
+//@   at call StmtContext#*: ghost onTx := onTx && callarg0 == tx
+//@   at call StmtContext#*: ghost lastStmt := callarg2
+//@   at call Exec#*: assert the-data-statement-runs-once-on-this-transaction-before-the-tracker: onTx && lastStmt == s.stmts.leaseAcquire && execs == 0 && tracked == 0
+//@   at after call Exec#*: ghost xerr := callresult1
+//@   at after call Exec#*: ghost execs := execs + 1
+//@   at call ExecContext#?: assert no-statement-bypasses-the-transaction: false
+//@   at call updateKeyTracker#*: assert tracker-updated-in-the-same-transaction-after-the-data-statement-succeeded: callarg2 == tx && execs == 1 && xerr == nil && tracked == 0 && callarg3 == lease && callarg4 == LeaseFlag && callarg5 == 0
+//@   at after call updateKeyTracker#*: ghost terr := callresult
+//@   at after call updateKeyTracker#*: ghost tracked := tracked + 1
+//@   ensures local-success-means-data-and-tracker-were-both-written-in-this-transaction: err == nil ==> (execs == 1 && xerr == nil && tracked == 1 && terr == nil)
+//@   ensures local-a-failed-statement-fails-the-transaction: (execs == 1 && xerr != nil) ==> err == xerr
+//@   ensures local-a-failed-tracker-update-fails-the-transaction: tracked == 1 ==> err == terr
+//@   ensures local-errors-come-from-the-statements-or-the-conflict-rule: err == nil || err == xerr || err == terr || err == chord.ErrKVLeaseConflict || tracked == 0
+
+//@ func (s *SqliteKV) Renew(ctx context.Context, lease []byte, ttl time.Duration, prevToken uint64) (tok uint64, err error)
+//@   safety off
+//@   opt frame=off
+//@   ghost txs int = 0
+//@   ghost werr error = nil
+//@   at call withWriteTx#*: assert one-write-transaction-on-the-writer-connection: callarg1 == s.writer && txs == 0
+//@   at after call withWriteTx#*: ghost werr := callresult
+//@   at after call withWriteTx#*: ghost txs := txs + 1
+//@   at call Exec#?: assert no-statement-changes-the-store-outside-the-transaction: false
+//@   at call ExecContext#?: assert no-statement-changes-the-store-outside-the-transaction: false
+//@   ensures local-acknowledged-only-when-the-transaction-committed: err == nil ==> (txs == 1 && werr == nil)
+//@   ensures local-a-failed-transaction-is-reported: (txs == 1 && werr != nil) ==> err == werr
+
+//@ func (s *SqliteKV) Renew$1(tx *sql.Tx) (err error)
+//@   safety off
+//@   opt frame=off
+//@   requires the-transaction-and-the-captured-receiver-exist: tx != nil && s != nil
+//@   ghost onTx bool = true
+//@   ghost lastStmt *sql.Stmt = nil
+//@   ghost execs int = 0
+//@   ghost xerr error = nil
+//@   ghost tracked int = 0
+//@   ghost terr error = nil
+//@   at call StmtContext#*: ghost onTx := onTx && callarg0 == tx
+//@   at call StmtContext#*: ghost lastStmt := callarg2
+//@   at call Exec#*: assert the-data-statement-runs-once-on-this-transaction-before-the-tracker: onTx && lastStmt == s.stmts.leaseRenew && execs == 0 && tracked == 0
+//@   at after call Exec#*: ghost xerr := callresult1
+//@   at after call Exec#*: ghost execs := execs + 1
+//@   at call ExecContext#?: assert no-statement-bypasses-the-transaction: false
+//@   at call updateKeyTracker#*: assert tracker-updated-in-the-same-transaction-after-the-data-statement-succeeded: callarg2 == tx && execs == 1 && xerr == nil && tracked == 0 && callarg3 == lease && callarg4 == LeaseFlag && callarg5 == 0
+//@   at after call updateKeyTracker#*: ghost terr := callresult
+//@   at after call updateKeyTracker#*: ghost tracked := tracked + 1
+//@   ensures local-success-means-data-and-tracker-were-both-written-in-this-transaction: err == nil ==> (execs == 1 && xerr == nil && tracked == 1 && terr == nil)
+//@   ensures local-a-failed-statement-fails-the-transaction: (execs == 1 && xerr != nil) ==> err == xerr
+//@   ensures local-a-failed-tracker-update-fails-the-transaction: tracked == 1 ==> err == terr
+//@   ensures local-errors-come-from-the-statements-or-the-conflict-rule: err == nil || err == xerr || err == terr || err == chord.ErrKVLeaseExpired || tracked == 0
+
+//@ func (s *SqliteKV) Release(ctx context.Context, lease []byte, token uint64) (err error)
+//@   safety off
+//@   opt frame=off
+//@   ghost txs int = 0
+//@   ghost werr error = nil
+//@   at call withWriteTx#*: assert one-write-transaction-on-the-writer-connection: callarg1 == s.writer && txs == 0
+//@   at after call withWriteTx#*: ghost werr := callresult
+//@   at after call withWriteTx#*: ghost txs := txs + 1
+//@   at call Exec#?: assert no-statement-changes-the-store-outside-the-transaction: false
+//@   at call ExecContext#?: assert no-statement-changes-the-store-outside-the-transaction: false
+//@   ensures local-acknowledged-exactly-when-the-transaction-committed: txs == 1 && err == werr
+
+//@ func (s *SqliteKV) Release$1(tx *sql.Tx) (err error)
+//@   safety off
+//@   opt frame=off
+//@   requires the-transaction-and-the-captured-receiver-exist: tx != nil && s != nil
+//@   ghost onTx bool = true
+//@   ghost lastStmt *sql.Stmt = nil
+//@   ghost execs int = 0
+//@   ghost xerr error = nil
+//@   ghost tracked int = 0
+//@   ghost terr error = nil
+//@   at call StmtContext#*: ghost onTx := onTx && callarg0 == tx
+//@   at call StmtContext#*: ghost lastStmt := callarg2
+//@   at call Exec#*: assert the-data-statement-runs-once-on-this-transaction-before-the-tracker: onTx && lastStmt == s.stmts.leaseRelease && execs == 0 && tracked == 0
+//@   at after call Exec#*: ghost xerr := callresult1
+//@   at after call Exec#*: ghost execs := execs + 1
+//@   at call ExecContext#?: assert no-statement-bypasses-the-transaction: false
+//@   at call updateKeyTracker#*: assert tracker-updated-in-the-same-transaction-after-the-data-statement-succeeded: callarg2 == tx && execs == 1 && xerr == nil && tracked == 0 && callarg3 == lease && callarg4 == 0 && callarg5 == LeaseFlag
+//@   at after call updateKeyTracker#*: ghost terr := callresult
+//@   at after call updateKeyTracker#*: ghost tracked := tracked + 1
+//@   ensures local-success-means-data-and-tracker-were-both-written-in-this-transaction: err == nil ==> (execs == 1 && xerr == nil && tracked == 1 && terr == nil)
+//@   ensures local-a-failed-statement-fails-the-transaction: (execs == 1 && xerr != nil) ==> err == xerr
+//@   ensures local-a-failed-tracker-update-fails-the-transaction: tracked == 1 ==> err == terr
+//@   ensures local-errors-come-from-the-statements-or-the-conflict-rule: err == nil || err == xerr || err == terr || err == chord.ErrKVLeaseExpired || tracked == 0
+
+//@ func (s *SqliteKV) Import(ctx context.Context, keys [][]byte, values []*protocol.KVTransfer) (err error)
+//@   safety off
+//@   opt frame=off
+//@   ghost txs int = 0
+//@   ghost werr error = nil
+//@   at call withWriteTx#*: assert one-write-transaction-on-the-writer-connection: callarg1 == s.writer && txs == 0 && len(keys) == len(values)
+//@   at after call withWriteTx#*: ghost werr := callresult
+//@   at after call withWriteTx#*: ghost txs := txs + 1
+//@   at call Exec#?: assert no-statement-changes-the-store-outside-the-transaction: false
+//@   at call ExecContext#?: assert no-statement-changes-the-store-outside-the-transaction: false
+//@   ensures local-acknowledged-only-when-the-transaction-committed: err == nil ==> (txs == 1 && werr == nil)
+//@   ensures local-a-failed-transaction-is-reported: txs == 1 ==> err == werr
+
+//@ func (s *SqliteKV) Import$1(tx *sql.Tx) (err error)
+//@   safety off
+//@   opt frame=off
+//@   requires the-transaction-and-the-captured-receiver-exist: tx != nil && s != nil
+//@   ghost onTx bool = true
+//@   ghost failed bool = false
+//@   at call StmtContext#*: ghost onTx := onTx && callarg0 == tx
+//@   at call Exec#*: assert every-statement-runs-on-this-transaction-and-none-after-a-failure: onTx && !failed
+//@   at after call Exec#*: ghost failed := failed || callresult1 != nil
+//@   at call ExecContext#?: assert no-statement-bypasses-the-transaction: false
+//@   at call updateKeyTracker#*: assert tracker-updated-in-the-same-transaction-for-the-imported-key: callarg2 == tx && !failed && callarg3 == key && callarg5 == 0
+//@   at after call updateKeyTracker#*: ghost failed := failed || callresult != nil
+//@   ensures local-success-means-no-statement-failed: err == nil ==> !failed
+//@   loop key: invariant all-statements-so-far-on-this-transaction-and-successful: onTx && !failed
+//@   loop child: invariant all-statements-so-far-on-this-transaction-and-successful: onTx && !failed
+
+//@ func (s *SqliteKV) RemoveKeys(ctx context.Context, keys [][]byte) (err error)
+//@   safety off
+//@   opt frame=off
+//@   ghost txs int = 0
+//@   ghost werr error = nil
+//@   at call withWriteTx#*: assert one-write-transaction-on-the-writer-connection: callarg1 == s.writer && txs == 0
+//@   at after call withWriteTx#*: ghost werr := callresult
+//@   at after call withWriteTx#*: ghost txs := txs + 1
+//@   at call Exec#?: assert no-statement-changes-the-store-outside-the-transaction: false
+//@   at call ExecContext#?: assert no-statement-changes-the-store-outside-the-transaction: false
+//@   ensures local-acknowledged-only-when-the-transaction-committed-or-nothing-was-asked: err == nil ==> ((txs == 1 && werr == nil) || len(keys) == 0)
+//@   ensures local-a-failed-transaction-is-reported: txs == 1 ==> err == werr
+
+//@ func (s *SqliteKV) RemoveKeys$1(tx *sql.Tx) (err error)
+//@   safety off
+//@   opt frame=off
+//@   requires the-transaction-exists: tx != nil
+//@   ghost failed bool = false
+//@   ghost batches int = 0
+//@   ghost execs int = 0
+//@   at call placeholders#*: ghost batches := batches + 1
+//@   at call Exec#*: assert every-delete-runs-on-this-transaction-and-none-after-a-failure: callarg0 == tx && !failed
+//@   at call Exec#1: assert simple-values-of-the-batch: execs == 4 * batches - 4 && contains(callarg1, "DELETE FROM `simple_entries`")
+//@   at call Exec#2: assert prefix-children-of-the-batch: execs == 4 * batches - 3 && contains(callarg1, "DELETE FROM `prefix_entries`")
+//@   at call Exec#3: assert leases-of-the-batch: execs == 4 * batches - 2 && contains(callarg1, "DELETE FROM `lease_entries`")
+//@   at call Exec#4: assert tracker-rows-of-the-batch-in-the-same-transaction: execs == 4 * batches - 1 && contains(callarg1, "DELETE FROM `key_trackers`")
+//@   at after call Exec#*: ghost failed := failed || callresult1 != nil
+//@   at after call Exec#*: ghost execs := execs + 1
+//@   ensures local-success-means-every-batch-lost-data-and-tracker-rows-together: err == nil ==> (!failed && execs == 4 * batches)
+//@   loop batch: invariant whole-batches-so-far: !failed && execs == 4 * batches && batches >= 0
